@@ -1,11 +1,11 @@
 (* Syntax/Rename.v — sheet rename, move and duplicate at the level of syntax trees and sheet lists.
 
-   Mirrors (as of commit 1fc9128):
+   Mirrors (as of commit 059fa54; F12 repaired by 059fa54, F65 by 9f60d5e):
      [rename_node]        rename_sheet_in_node      (expressions/parser/stringify.rs:1230), arm by arm
-     [rename_stored]      the per-formula step of Model::rename_sheet_by_index (new_empty.rs:464):
-                          parse the stored text — WITH THE PARSER'S CURRENT (= the user's) locale and
-                          language; only parse_formulas switches to English — apply the pass, print with
-                          to_rc_format; a ParseErrorKind prints the original text
+     [rename_stored]      the per-formula step of Model::rename_sheet_by_index (new_empty.rs):
+                          parse the stored text with the English locale and language (as parse_formulas
+                          does; since 9f60d5e), apply the pass, print with to_rc_format; a ParseErrorKind
+                          prints the original text
      [rename_check]       the validation in front of it (is_valid_sheet_name, "Sheet already exists")
      [env_renamed]        what the parser knows after worksheet.set_name + reset_parsed_structures
      [move_list]          Model::move_sheet (new_empty.rs:556): remove(i) ; insert(j)
@@ -26,10 +26,9 @@ Definition rename_valid (i : Z) (n : text) (s : option text) (k : Z) : option te
 Definition rename_wrong_ref (n : text) (s : option text) : option text :=
   match s with Some name => Some name | None => None end.
 
-(* WrongRangeKind: "if sheet_name.is_some() { *sheet_name = Some(new_name) }" — no test of which
-   sheet is renamed: EVERY range on a nonexistent sheet gets the new name (finding F12) *)
-Definition rename_wrong_range (n : text) (s : option text) : option text :=
-  match s with Some _ => Some n | None => None end.
+(* WrongRangeKind: the arm is empty since commit 059fa54 (before, every range on a nonexistent sheet
+   got the new name: finding F12) *)
+Definition rename_wrong_range (n : text) (s : option text) : option text := s.
 
 Fixpoint rename_node (i : Z) (n : text) (e : ast) : ast :=
   match e with
@@ -91,7 +90,8 @@ Inductive only_target (i : Z) (n : text) : ast -> ast -> Prop :=
                             only_target i n (ELambdaCall l a) (ELambdaCall l' a')
 | OT_leaf e : is_leaf e = true -> only_target i n e e.
 
-(* the class the pass gets wrong: a range on a sheet that does not exist, with its name *)
+(* the class the pass got wrong before commit 059fa54 (F12): a range on a sheet that does not exist,
+   with its name.  Kept for the regression examples only. *)
 Fixpoint no_ghost_range (e : ast) : bool :=
   match e with
   | ERange (Some _) None _ _ => false
@@ -155,13 +155,12 @@ Definition rename_check (upper : text -> text) (i : Z) (n : text) (sheets : list
        end.
 
 (* ---- one stored formula ------------------------------------------------------------------------- *)
-(* [mu], [nmu]: the text form the parser is in when rename_sheet_by_index runs: R1C1 lexer mode,
-   but the locale and language the user works in.  Printing is to_rc_format: English, '.'. *)
+(* the text form the parser is in when rename_sheet_by_index / duplicate_sheet run: R1C1 lexer mode,
+   English locale and language (set explicitly since 9f60d5e).  Printing is to_rc_format: English, '.'. *)
 Definition m_stored : pmode := {| pm_rc := true; pm_xlsx := false; pm_dot := true; pm_row := 1; pm_col := 1 |}.
 
-Definition rename_stored (mu : pmode) (nmu nm_en : names) (env : penv) (i : Z) (n : text) (ts : list token)
-  : list token :=
-  match parse mu nmu env ts with
+Definition rename_stored (nm_en : names) (env : penv) (i : Z) (n : text) (ts : list token) : list token :=
+  match parse m_stored nm_en env ts with
   | Some (e, _) => print m_stored nm_en (rename_node i n e)
   | None => ts                         (* ParseErrorKind prints the text it was made of *)
   end.
